@@ -274,6 +274,37 @@ struct ENonTr {
   }
 };
 
+// ------------------------------------------------------------------------------------------------ EAgg
+/// Non-trivial (because of its member) but without a user-provided default constructor: value-initialisation must
+/// zero-initialise 'key_' first, default-initialisation leaves it indeterminate (fresh simulated memory is 0xCD).
+struct AggMember {
+  int v;
+  AggMember() : v(7) {}
+  AggMember(const AggMember &o) : v(o.v) {}
+  AggMember &operator=(const AggMember &o) { v = o.v; return *this; }
+  ~AggMember() { v = -1; }
+};
+struct EAgg {
+  int key_;
+  AggMember m_;
+  EAgg() = default;
+  EAgg(int k, int p) : key_(k) { m_.v = p; }
+  int k() const { return key_; }
+  int p() const { return m_.v; }
+  bool operator==(const EAgg &o) const { return key_ == o.key_ && m_.v == o.m_.v; }
+  bool operator!=(const EAgg &o) const { return !(*this == o); }
+  bool operator<(const EAgg &o) const { return key_ < o.key_ || (key_ == o.key_ && m_.v < o.m_.v); }
+#ifdef SIM_HAS_3WAY
+  std::strong_ordering operator<=>(const EAgg &o) const {
+    if (key_ != o.key_) return key_ < o.key_ ? std::strong_ordering::less : std::strong_ordering::greater;
+    if (m_.v != o.m_.v) return m_.v < o.m_.v ? std::strong_ordering::less : std::strong_ordering::greater;
+    return std::strong_ordering::equal;
+  }
+#endif
+  static const bool kHooks = false;
+  static int state_of(const EAgg &) { return ES_ALIVE; }
+};
+
 template <class T>
 struct ElemTraits {
   static const bool hooks = T::kHooks;
